@@ -131,6 +131,7 @@ CONTEXTS_B = ["if {E}:\n        result(\"t\", 1)\n    else:\n        result(\"f\
               "k = 0\n    while k < 2 and {E}:\n        k += 1\n    result(\"k\", k)",
               "result(\"r\", h1(7, {E}))"]
 
+SCHEDS = ["min", "max", "rand:1", "rand:2"]
 ARGS = [[["int", 0], ["int", 1], ["bool", 1]], [["int", 3], ["int", -2], ["bool", 0]], [["int", -4], ["int", 5], ["bool", 1]]]
 
 
@@ -148,7 +149,7 @@ def make_case(idx, kind, templ, ctxi, panic_at=None):
     body = ctx.replace("{E}", e)
     src = HEADER + f"\n@guppy\ndef main(a: int, b: int, p: bool) -> int:\n    xs = array(10, 20, 30)\n    {body}\n    return 0\n"
     return {"id": f"{kind}{idx}", "src": src, "entry": "main", "args": ARGS, "shape": templ, "expr": e,
-            "scheds": ["min", "max", "rand:1", "rand:2"]}
+            "scheds": SCHEDS}
 
 
 def _fallible_operand_before_built_early(expr: str) -> bool:
@@ -185,7 +186,7 @@ def build_cases(ctx):
         shapes = list(dict.fromkeys(d1[kind]))
         extra = [s for s in dict.fromkeys(d2[kind]) if s not in set(shapes)]
         rng.shuffle(extra)
-        extra = extra[: ctx.pick(120, 6000)]
+        extra = extra[: ctx.pick(60, 6000)]
         nctx = len(CONTEXTS_I if kind == "I" else CONTEXTS_B)
         for si, t in enumerate(shapes):
             for ci in (range(nctx) if not ctx.quick else [si % nctx]):
@@ -208,6 +209,9 @@ def build_cases(ctx):
 
 
 def run(ctx):
+    global SCHEDS
+    if ctx.quick:
+        SCHEDS = ["min", "max", "rand:1"]
     cases = build_cases(ctx)
     res = sem.evaluate(ctx, cases, "C05")
     cnt = collections.Counter()
@@ -248,7 +252,7 @@ def run(ctx):
         raise lib.Machinery(f"{cnt['rejected']} of {len(cases)} shapes rejected by /repo, e.g. `{rej[0]['expr']}`: {rej[1]['impl'].get('error')}")
     ctx.coverage.update({
         "programs": len(cases), "traces_validated_against_impl": validated,
-        "evaluations": len(cases) * len(ARGS) * 4, "distinct_nontrivial": len(nontriv),
+        "evaluations": len(cases) * len(ARGS) * len(SCHEDS), "distinct_nontrivial": len(nontriv),
         "rule": "expression shapes: every form x every atom per slot to depth 1 in every statement context, sampled depth 2, "
                 "plus a panicking call in sampled positions; x 3 argument tuples x 4 node schedules; "
                 "non-trivial = accepted shape with >= 2 effectful calls (distinct shapes counted)",
